@@ -483,8 +483,14 @@ fn deserialize_page_token<PageSelector: DeserializeOwned>(
     // supports this, but it seems like serde only preserves the to_string()
     // output of the error anyway.  It's not clear how else we could
     // propagate this information out.
+    // serde_json does not check the encoding of strings that it skips (such as
+    // the values of unknown fields), so make sure that the whole token is
+    // UTF-8, as JSON must be.
+    let json_str = std::str::from_utf8(&json_bytes).map_err(|_| {
+        String::from("failed to parse pagination token: corrupted token")
+    })?;
     let deserialized: SerializedToken<PageSelector> =
-        serde_json::from_slice(&json_bytes).map_err(|_| {
+        serde_json::from_str(json_str).map_err(|_| {
             String::from("failed to parse pagination token: corrupted token")
         })?;
 
